@@ -1117,6 +1117,13 @@ static int32_t s_pstm_add(const pstm_int *a, const pstm_int *b, pstm_int *c)
         c->dp[x]   = (pstm_digit) t;
         t        >>= DIGIT_BIT;
     }
+    if (t != 0 && x >= PSTM_MAX_SIZE)
+    {
+        /* the sum needs PSTM_MAX_SIZE + 1 digits: report it, do not drop the carry */
+        c->used = 0;
+        c->sign = PSTM_ZPOS;
+        return PS_LIMIT_FAIL;
+    }
     if (t != 0 && x < PSTM_MAX_SIZE)
     {
         if (c->used == c->alloc)
